@@ -20,7 +20,8 @@ type Bad = (String, String);
 
 /// value written by source `k` into buffer `b`, sample `t`, on call `c` (dyadic)
 fn src_val(k: usize, b: usize, t: usize, c: usize) -> f32 {
-    (k + 1) as f32 * 0.5 + b as f32 * 0.125 + t as f32 / 1024.0 + c as f32 * 4.0
+    // (k mod 16 keeps the sum over several hundred inputs below 2^14, hence exact with 10 fractional bits)
+    (k % 16 + 1) as f32 * 0.5 + b as f32 * 0.125 + t as f32 / 1024.0 + c as f32 * 4.0
 }
 
 struct Src {
@@ -322,7 +323,7 @@ fn main() {
         let _guard_scope = guard::scoped(&v.to_string());
         ctx.finish_replay(catch(|| replay(&v)).unwrap_or_else(|p| Some(format!("panic: {p}"))));
     }
-    ctx.rule("Sum / SumBuffers: input count 0..=3 x buffers per input 0..=3 (every combination) x output buffers 0..=3 x 10 wrapper types (plain, BoxedNode, BoxedNodeSend, Box<Box<T>>, &mut T, fn pointer, Box<dyn Fn>, Box<dyn FnMut>, nested GraphNode, nested GraphNode whose inner input/output nodes have different buffer counts) x 3 consecutive calls; Pass: 0 or 1 input likewise; Delay: per-channel ring lengths over {1,2,63,64,65,130}^(1..=2 channels) x input buffers 0..=3 x output buffers 0..=3 x 4 wrappers x 4 calls with coded initial ring contents; signal node: Box<dyn Signal<Frame=[f32;2]>> over an instrumented source, output buffers 0..=3, 3 calls, 64 pulls per call; sources write position-coded dyadic values (sums exact in f32), outputs start as a sentinel; oracle = per-node reference function; soak probes: 300 consecutive calls of delay nodes (4 ring-length sets) and of the signal node; distinct by configuration");
+    ctx.rule("Sum / SumBuffers: input count 0..=3 x buffers per input 0..=3 (every combination) x output buffers 0..=3 x 10 wrapper types (plain, BoxedNode, BoxedNodeSend, Box<Box<T>>, &mut T, fn pointer, Box<dyn Fn>, Box<dyn FnMut>, nested GraphNode, nested GraphNode whose inner input/output nodes have different buffer counts) x 3 consecutive calls; Pass: 0 or 1 input likewise; Delay: per-channel ring lengths over {1,2,63,64,65,130}^(1..=2 channels) x input buffers 0..=3 x output buffers 0..=3 x 4 wrappers x 4 calls with coded initial ring contents; signal node: Box<dyn Signal<Frame=[f32;2]>> over an instrumented source, output buffers 0..=3, 3 calls, 64 pulls per call; sources write position-coded dyadic values (sums exact in f32), outputs start as a sentinel; oracle = per-node reference function; scale probes: Sum / SumBuffers with 4..=8, 16, 33, 100, 255, 256 and 257 inputs (patterned buffer counts), plain and nested-graph wrappers; soak probes: 300 consecutive calls of delay nodes (4 ring-length sets) and of the signal node; distinct by configuration");
     let mut evals = 0u64;
     for kind in [Kind::Sum, Kind::SumBuffers, Kind::Pass] {
         for n_in in 0..=(if kind == Kind::Pass { 1 } else { 3 }) {
@@ -343,9 +344,9 @@ fn main() {
             }
         }
     }
-    // scale probes: many inputs (4..=8) with patterned buffer counts
+    // scale probes: many inputs (4..=8, then 16, 33, 100, 255, 256, 257) with patterned buffer counts
     for kind in [Kind::Sum, Kind::SumBuffers] {
-        for n_in in 4..=8usize {
+        for n_in in (4..=8usize).chain([16, 33, 100, 255, 256, 257]) {
             for pat in 0..4usize {
                 let in_bufs: Vec<usize> = (0..n_in).map(|j| [2, (j + pat) % 4, (j * 2 + pat) % 3, 3][pat]).collect();
                 for n_out in [1usize, 3] {
